@@ -130,6 +130,30 @@ def check_mc_case(case):
                         or not sem.holds_on_lasso(SK, g, l[0], l[1]):
                     raise AssertionError('oracle self-check failed: no certified lasso for %r at %r on %r'
                                          % (g, s, kdata))
+    # the caller edits the structure between two calls (a label through the live set labels(s) returns, an edge through
+    # add_edge): the second answer is the one of the structure as it is NOW
+    if ts and SK.states and isinstance(kdata[2], dict):
+        K = gen.mk_kripke(kdata)
+        for t in ts[:2]:
+            call(L.modelcheck, K, trees.build(L, t))
+        st = sorted(SK.states, key=repr)
+        s0 = st[0]
+        r = call(K.labels, s0)
+        if r[0] == 'ok' and isinstance(r[1], set):
+            if 'p' in r[1]:
+                r[1].discard('p')
+            else:
+                r[1].add('p')
+            call(K.add_edge, st[-1], s0)
+            SK2 = sem.SpecK.of(K)
+            for t in ts[:2]:
+                r5 = call(L.modelcheck, K, trees.build(L, t))
+                exp2 = set(sem.sat(SK2, t))
+                if r5[0] != 'ok' or set(r5[1]) != exp2:
+                    fails.append(('modelcheck:ensures:after_caller_edit',
+                                  'after the caller toggled p at %r and added the edge (%r, %r): %s.modelcheck(%s [edited], %s) gives %r, the semantics of the edited structure gives %r'
+                                  % (s0, st[-1], s0, logic, gen.ktext(kdata), trees.to_text(t), r5[1:] if r5[0] != 'ok' else sorted(r5[1], key=repr), sorted(exp2, key=repr)),
+                                  {'logic': logic}, (logic, kdata, ts[:2], opts)))
     return {'fails': fails, 'n': len(ts), 'keys': keys}
 
 
@@ -347,6 +371,33 @@ def check_purity_case(case):
         same = (a[0] == b[0]) and (a[1] == b[1] if a[0] == 'ok' else a[1] == b[1])
         if not same:
             fails.append(('purity:repeatable', 'repeating %s gave %r, the first call gave %r' % (describe(q), b[:2], a[:2]), attrs))
+            break
+    # the caller edits the structures (a label through the live set that labels(s) returns, an edge through add_edge): a
+    # call on the edited object must answer like a call on a freshly built structure with the same states, transitions
+    # and labels - the result depends on the arguments as they are now, not on what was computed for them before
+    from pyModelChecking import Kripke
+    fresh = []
+    for ki, (kd, K) in enumerate(Ks):
+        st = list(K._next.keys())
+        r = call(K.labels, st[0])
+        if r[0] == 'ok' and isinstance(r[1], set):
+            if 'p' in r[1]:
+                r[1].discard('p')
+            else:
+                r[1].add('p')
+        call(K.add_edge, st[-1], st[0])
+        snaps[ki] = deep_snapshot(K)
+        fresh.append(Kripke(S=list(K._next.keys()), R=[(a_, b_) for a_, ds_ in K._next.items() for b_ in ds_],
+                            L=dict((s_, set(l_)) for s_, l_ in K._labels.items())))
+    for q in queries:
+        if q['F'] is not None:
+            continue
+        Lq = lang(q['logic'])
+        r1 = call(Lq.modelcheck, Ks[q['ki']][1], q['arg'])
+        r2 = call(Lq.modelcheck, fresh[q['ki']], trees.to_text(q['t']) if isinstance(q['arg'], str) else trees.build(Lq, q['t']))
+        if r1[0] != r2[0] or r1[1] != r2[1]:
+            fails.append(('purity:after_caller_edit', 'after the caller toggled p at the first state and added an edge, %s gives %r; a freshly built equal structure gives %r'
+                          % (describe(q), r1[:2], r2[:2]), {'logic': q['logic'], 'fair': False}))
             break
     if _global_state() != g0:
         fails.append(('purity:frame:globals', 'module/class level state of the package changed (seed %d)' % seed, {}))
@@ -591,6 +642,22 @@ def check_laws_case(case):
             bad('agree:CTL-CTLS', 'CTL/CTLS.modelcheck give %r / %r for %s' % (a, c, trees.to_text(f)), (kdata, [f], [], []))
         if val('CTL', f, True) != a:
             bad('agree:text-object', 'CTL.modelcheck differs between text %r and object' % (trees.to_text(f),), (kdata, [f], [], []))
+    # ONE formula object handed to the checkers one after the other (CTL* first): where a checker accepts the object of
+    # another logic's classes, every answer is the one above (a TypeError for foreign classes is not this law's business)
+    same_rep = (kdata, list(ctl_fs[:6]), list(shared[:4]), [])
+    for t, with_ltl in [(f_, False) for f_ in ctl_fs[:6]] + [(('A', g_), True) for g_ in shared[:4]]:
+        first = val('CTLS', t)
+        if isinstance(first, tuple):
+            continue
+        fo = trees.build(lang('CTLS'), t)
+        for logic in ('CTLS', 'CTL', 'CTLS') + (('LTL',) if with_ltl else ()):
+            r = call(lang(logic).modelcheck, K, fo)
+            if r[0] == 'ok' and set(r[1]) != first:
+                bad('agree:same-object', '%s.modelcheck on a formula OBJECT already checked gives %r, first answer %r, for %s'
+                    % (logic, set(r[1]), first, trees.to_text(t)), same_rep)
+            elif r[0] != 'ok' and r[1] != 'TypeError':
+                bad('agree:same-object', '%s.modelcheck on a formula OBJECT already checked raised %s (%s) for %s'
+                    % (logic, r[1], r[2], trees.to_text(t)), same_rep)
     for g in ltl_gs:                      # every LTL formula is a CTL* formula
         t = ('A', g)
         keys.add(('ltl', repr(kdata), t))
